@@ -4,7 +4,7 @@ from ..fdai import EnumV, AggV, K, SymV, RefV, Cell, Loc, TOP, load, snapshot
 from . import contrib as CB, dispatch as D
 
 LEVEL = "other"
-TECHNIQUE = 'abstract device model (sa/rules/devmodel.py): ScpiDevice::push_error / scpi_opc, the SYSTem:ERRor handlers and *ESR? are interpreted by the FDAI engine on an abstract device (8-bit registers, queue of distinct entries, two event register sets) with the trait methods they call interpreted on that state; the final state and the response data are compared with SCPI-99 21.8 / IEEE 488.2 11.5 for every standard error class, custom codes on class boundaries, several prior ESR values and queue lengths 0..4; who-may-call census for queue/ESR writers; documented wiring (example device); the hook table of Node::run (C05) and the queue state tables (C12); every Command impl of scpi-contrib on the abstract device: a successful path queues nothing and sets no ESR bit (*OPC excepted)'
+TECHNIQUE = 'abstract device model (sa/rules/devmodel.py): ScpiDevice::push_error / scpi_opc, the SYSTem:ERRor handlers and *ESR? are interpreted by the FDAI engine on an abstract device (8-bit registers, queue of distinct entries, two event register sets) with the trait methods they call interpreted on that state; the final state and the response data are compared with SCPI-99 21.8 / IEEE 488.2 11.5 for every standard error class, custom codes on class boundaries, several prior ESR values and queue lengths 0..4; who-may-call census for queue/ESR writers; documented wiring (example device); the hook table of Node::run (C05) and the queue state tables (C12); every Command impl of scpi-contrib on the abstract device: a successful path queues nothing and sets no ESR bit (*OPC excepted); the SYSTem:ERRor subtree the macro declares, from the witness device`s evaluated tree constant'
 LEVEL_TEXT = 'The chain run -> handle_error -> push_error -> queue/ESR -> SYST:ERR / *ESR? is decided link by link: the error returned by run is handed to the hook once (path table of Node::run); for each error class push_error leaves ESR = old | class bit and the queue = old + [that error] with nothing else changed; *OPC accumulates bit 0 and queues -800; only push_error/scpi_opc append, only the NEXT/ALL handlers remove, only four functions write ESR (census); NEXT? answers and removes the oldest entry or answers 0,"No error", COUNt? answers the length, ALL? answers all entries oldest first and empties the queue, *ESR? answers the bits and clears them - each computed as final state + response from the handler\'s MIR.'
 LEVEL_NOTE = "Not decided: devices wired differently from the documented example; ordering over histories (container contracts, C12). Trusted: rustc MIR, FDAI models."
 
